@@ -177,7 +177,7 @@ impl ProbeSpace {
         let h = |l: &[(&str, &str)]| -> Vec<(String, String)> { l.iter().map(|(a, b)| (a.to_string(), b.to_string())).collect() };
         ProbeSpace {
             schemes: vec![s("http"), s("https"), None, s("ftp")],
-            hosts: vec![s("a.example"), s("A.Example"), s("cat.example"), s("cow.example"), s("Cat.Example"), s("cat.Example"), s("shop-cat.example"), s("Shop-cat.example"), s("other.org"), None, s("cat.example.org"), s("cat.EXAMPLE")],
+            hosts: vec![s("a.example"), s("A.Example"), s("cat.example"), s("cow.example"), s("Cat.Example"), s("cat.Example"), s("shop-cat.example"), s("Shop-cat.example"), s("other.org"), None, s("cat.example.org"), s("cat.EXAMPLE"), s("cat.two.example")],
             ips: vec![
                 s("10.0.0.1"),
                 s("8.8.8.8"),
